@@ -363,10 +363,10 @@ type VerifOut struct {
 type VerifAuditionResult struct {
 	ParseErr    string
 	Outs        []VerifOut
-	AuditErr    string             // error returned by a round, if any (aborts the audition)
-	Vals        map[string]string  // final variable values, %v-formatted
-	Verdict     string             // checkAuditViolations error text ("" = nil)
-	EarlyExitAt int                // index in Outs of the report at which the collector asked to exit early (-1: never)
+	AuditErr    string            // error returned by a round, if any (aborts the audition)
+	Vals        map[string]string // final variable values, %v-formatted
+	Verdict     string            // checkAuditViolations error text ("" = nil)
+	EarlyExitAt int               // index in Outs of the report at which the collector asked to exit early (-1: never)
 	GoodCounts  map[string]int
 	BadCounts   map[string]int
 	Errors      int
